@@ -290,24 +290,24 @@ def check(pid, tier):
                 return 2
     replay_tier(pid, cfg, binaries, res, outdir)
     jobs = []
-    for r in runs:
+    for ri, r in enumerate(runs):
         if r.get("kind", "rapid") == "fuzz":
             continue
         mod = r.get("module", "harness")
         binary = binaries[mod + ("-race" if r.get("race") else "")]
         shards = r.get("shards", 1)
         for k in range(shards):
-            name = "%s#%d" % (r["test"], k)
+            name = "%s.%d#%d" % (r["test"], ri, k)
             env = env_base()
             env.update({str(a): str(b) for a, b in r.get("env", {}).items()})
-            env["VERIF_STATS"] = os.path.join(outdir, "stats-%s-%d.json" % (r["test"], k))
-            env["VERIF_LOG"] = os.path.join(outdir, "log-%s-%d.txt" % (r["test"], k))
+            env["VERIF_STATS"] = os.path.join(outdir, "stats-%s-%d-%d.json" % (r["test"], ri, k))
+            env["VERIF_LOG"] = os.path.join(outdir, "log-%s-%d-%d.txt" % (r["test"], ri, k))
             env["VERIF_OUT"] = outdir
-            env["VERIF_SHARD"] = "%s-%d" % (r["test"], k)
-            env["VERIF_SEED_EFFECTIVE"] = str(seed_for(seed, pid, r["test"], k))
+            env["VERIF_SHARD"] = "%s-%d-%d" % (r["test"], ri, k)
+            env["VERIF_SEED_EFFECTIVE"] = str(seed_for(seed, pid, r["test"] + str(ri), k))
             env["VERIF_TIER"] = tier
             argv = [binary, "-test.run", "^%s$" % r["test"], "-test.v", "-test.timeout", "%ds" % timeout,
-                    "-rapid.checks=%d" % r.get("checks", 100), "-rapid.seed=%d" % seed_for(seed, pid, r["test"], k),
+                    "-rapid.checks=%d" % r.get("checks", 100), "-rapid.seed=%d" % seed_for(seed, pid, r["test"] + str(ri), k),
                     "-rapid.nofailfile", "-rapid.shrinktime=%s" % r.get("shrinktime", "20s")]
             jobs.append((name, argv, env, module_dir(mod), r.get("checks", 100) if r.get("count_cases", True) else 0))
     run_procs(jobs, res, timeout + 60)
